@@ -2,7 +2,7 @@
 # maintenance helper: every claimed check (tier = $1, default quick) on /repo as it stands; one line per property,
 # plus every violated / skipped / FAILED line; exit 1 if any check is not 0
 rc=0
-for p in C01 C02 C03 C04 C05 C06 C07 C08 C09 C10 C11 C12 C14 C15 C16 C17 C18 C19 C20; do
+for p in C01 C02 C03 C04 C05 C06 C07 C08 C09 C10 C11 C12 C13 C14 C15 C16 C17 C18 C19 C20; do
   out=$(./check $p --tier ${1:-quick} 2>&1); r=$?
   echo "$p rc=$r $(echo "$out" | tail -1 | cut -c1-110)"
   echo "$out" | grep "skipped \|FAILED\|ANALYSIS-ERROR" | cut -c1-260
